@@ -71,6 +71,7 @@ type harness struct {
 	mch                chan imessage
 	activity           Activity
 	active             int32
+	interrupted        int32
 	cancellation       sync.Once
 	eventConsumers     []event.IConsumer
 	eventConsumersLock sync.RWMutex
@@ -156,6 +157,7 @@ func newHarness(wr *wiring, idGenerator id.IGenerator, constructor constructor) 
 		var actionTransformer ActionTransformer
 		if boundaryEvent.CancelActivity() {
 			actionTransformer = func(sequenceFlowId *schema.IdRef, action IAction) IAction {
+				atomic.StoreInt32(&node.interrupted, 1)
 				node.cancellation.Do(func() {
 					<-node.activity.Cancel()
 				})
@@ -183,6 +185,11 @@ func (node *harness) run(ctx context.Context, sender tracing.ISenderHandle) {
 				go func(bctx context.Context) {
 					select {
 					case rsp := <-in:
+						if atomic.LoadInt32(&node.interrupted) == 1 {
+							// an interrupting boundary event has taken the token away: a late
+							// answer ends this flow instead of continuing the normal flow
+							rsp = noAction{}
+						}
 						out <- rsp
 						atomic.StoreInt32(&node.active, 0)
 						node.tracer.Send(ActiveBoundaryTrace{Start: false, Node: node.activity.Element()})
